@@ -1,7 +1,10 @@
 (** C08  DPoS finality.  Only statements, each closed by [exact] of a lemma proved in
-    Dpos/LibProofs.v or Dpos/ProtocolProofs.v, followed by [Print Assumptions]. *)
+    Dpos/LibProofs.v, Dpos/LibOnMain.v, Dpos/LibQuorum.v, Dpos/LibQuorumHist.v, Dpos/LibRestart.v or
+    Dpos/ProtocolProofs.v, followed by [Print Assumptions].
+    Model: Dpos/Lib.v (libStatus/Status/node, after the repairs F9, F21, F22), Dpos/Protocol.v. *)
 From Coq Require Import ZArith List Bool.
-From Verif Require Import Dpos.Lib Dpos.LibProofs Dpos.Protocol Dpos.ProtocolProofs.
+From Verif Require Import Dpos.Lib Dpos.LibProofs Dpos.LibOnMain Dpos.LibQuorum Dpos.LibQuorumHist Dpos.LibRestart
+  Dpos.Protocol Dpos.ProtocolProofs.
 Import ListNotations.
 Open Scope Z_scope.
 
@@ -35,6 +38,96 @@ Theorem C08_finalized_never_undone : forall size self evs1 evs2 h b,
   main_at (run (init_node size self) (evs1 ++ evs2)) h = Some b.
 Proof. exact finalized_never_undone. Qed.
 Print Assumptions C08_finalized_never_undone.
+
+(** The reported LIB lies on the node's main chain (or is the empty initial value), after
+    any history of deliveries of blocks with non-empty hashes and restarts. *)
+Theorem C08_lib_on_main_chain : forall size self evs,
+  Forall ev_ok evs -> lib_on_main (run (init_node size self) evs) = true.
+Proof. exact lib_on_main_chain. Qed.
+Print Assumptions C08_lib_on_main_chain.
+
+(** So do all proposals and all elements of the confirms list. *)
+Theorem C08_proposals_on_main_chain : forall size self evs,
+  Forall ev_ok evs ->
+  let nd := run (init_node size self) evs in
+  Forall (fun kv => onm (nd_main nd) (pl_plib (snd kv))) (ls_prpsd (st_ls (nd_st nd))) /\
+  Forall (fun c => onm (nd_main nd) (c_bi c)) (ls_confirms (st_ls (nd_st nd))).
+Proof. exact proposals_on_main_chain. Qed.
+Print Assumptions C08_proposals_on_main_chain.
+
+(** calcLIB: at least n' - (n'-1)/3 of the n' proposals are at or above the computed LIB. *)
+Theorem C08_lib_supported_by_two_thirds : forall p l,
+  calc_lib p = Some l ->
+  let n' := Z.of_nat (length p) in
+  n' - (n' - 1) / 3 <= Z.of_nat (count_ge (b_no l) (plibs p)).
+Proof. exact lib_supported_by_two_thirds. Qed.
+Print Assumptions C08_lib_supported_by_two_thirds.
+
+(** confirmsRequired = 2n/3+1 is more than two thirds of the producers. *)
+Theorem C08_confirms_required_two_thirds : forall n, 0 < n < 21845 ->
+  confirms_required n = 2 * n / 3 + 1 /\ 3 * confirms_required n > 2 * n.
+Proof. exact confirms_required_two_thirds. Qed.
+Print Assumptions C08_confirms_required_two_thirds.
+
+(** plib_has_quorum: in every reachable node, when Update of the next block makes a block a
+    producer's proposed LIB, that block is an element of the confirms list (a main-chain block
+    by C08_proposals_on_main_chain) and at least 2n/3+1 = confirmsRequired elements of the list
+    from it to the tip have confirmation windows containing it.  With honest windows
+    (C08_honest_windows_disjoint) these are blocks of distinct producers. *)
+Theorem C08_plib_has_quorum : forall size self evs b ls1 bp pl,
+  Forall ev_ok2 evs -> 0 < size < 21845 -> k_no b <> 0 ->
+  let nd := run (init_node size self) evs in
+  get_pre_lib (add_confirm_info (st_ls (nd_st nd)) b) = (ls1, Some (bp, pl)) ->
+  exists i e, nth_error (ls_confirms ls1) i = Some e /\ c_bi e = pl_plib pl /\
+              (Z.to_nat (2 * size / 3 + 1) <= confirmers (ls_confirms ls1) e i)%nat.
+Proof. exact plib_has_quorum. Qed.
+Print Assumptions C08_plib_has_quorum.
+
+(** A correct producer's confirmation windows (lpbNo, no] never overlap. *)
+Theorem C08_honest_windows_disjoint : forall no1 lpb1 no2 lpb2 h,
+  0 <= lpb1 < no1 -> no1 <= lpb2 < no2 ->
+  window no1 (honest_confirms no1 lpb1) h -> window no2 (honest_confirms no2 lpb2) h -> False.
+Proof. exact honest_windows_disjoint. Qed.
+Print Assumptions C08_honest_windows_disjoint.
+
+(** Two sets of 2n/3+1 distinct producers share a non-Byzantine one when f < n/3. *)
+Theorem C08_quorum_intersection : forall (u byz q1 q2 : list Z),
+  NoDup u -> NoDup q1 -> NoDup q2 -> incl q1 u -> incl q2 u ->
+  let n := Z.of_nat (length u) in
+  3 * Z.of_nat (length byz) < n ->
+  2 * n / 3 + 1 <= Z.of_nat (length q1) -> 2 * n / 3 + 1 <= Z.of_nat (length q2) ->
+  exists x, In x q1 /\ In x q2 /\ ~ In x byz.
+Proof. exact quorum_intersection. Qed.
+Print Assumptions C08_quorum_intersection.
+
+(** Restart: the LIB is restored exactly; restoring is idempotent; the restored status is the
+    saved one with confirms list and proposals recomputed from the stored blocks. *)
+Theorem C08_restart_lib_preserved : forall size self evs,
+  let nd := run (init_node size self) evs in
+  ls_lib (st_ls (nd_st (restart nd))) = ls_lib (st_ls (nd_st nd)).
+Proof. exact restart_lib_preserved. Qed.
+Print Assumptions C08_restart_lib_preserved.
+
+Theorem C08_restart_idempotent : forall nd, restart (restart nd) = restart nd.
+Proof. exact restart_idempotent. Qed.
+Print Assumptions C08_restart_idempotent.
+
+Theorem C08_restart_equals_recompute : forall nd p l lpb,
+  nd_saved nd = Some (p, l, lpb) ->
+  st_ls (nd_st (restart nd)) =
+    load (main_get (nd_main nd)) (mkLS p l lpb [] (confirms_required (nd_size nd)) (nd_self nd))
+         (k_no (st_best (nd_st nd))).
+Proof. exact restart_equals_recompute. Qed.
+Print Assumptions C08_restart_equals_recompute.
+
+(** ... but it is not always the status computed online (known finding). *)
+Theorem C08_restart_equals_online_refuted :
+  exists size self evs,
+    let nd := run (init_node size self) evs in
+    sort_entries (prpsd_obs (ls_prpsd (st_ls (nd_st (restart nd))))) <>
+    sort_entries (prpsd_obs (ls_prpsd (st_ls (nd_st nd)))).
+Proof. exact restart_equals_online_refuted. Qed.
+Print Assumptions C08_restart_equals_online_refuted.
 
 (** The global agreement clause is false of the protocol as implemented: one Byzantine
     producer out of four (f < n/3) and an adversarial schedule make two correct nodes
